@@ -3,7 +3,7 @@
     [unambig_check syms p = true].  The theorems say what a passed check covers. *)
 From Coq Require Import NArith Arith List Bool.
 Import ListNotations.
-From NV Require Import Machine.Dfa Regex.Re Ref.Lang Ref.RefSem Ref.Unambig.
+From NV Require Import Machine.Dfa Regex.Re Ref.Lang Ref.LangEq Ref.RefSem Ref.Unambig.
 
 (** no decision of any configuration in the table is ambiguous, on any symbol of interest *)
 Theorem c09_no_decision_ambiguous : forall f syms tbl, find_ambiguity f syms tbl = None ->
@@ -15,9 +15,8 @@ Print Assumptions c09_no_decision_ambiguous.
 (** and the table holds every configuration the reading can be in, after any input over the symbols of
     interest, pauses at cuts included *)
 Theorem c09_reachable_in_table : forall syms p tbl, table_closed syms p tbl = true ->
-  (forall K K0, In K0 tbl -> cfg_eqb K K0 = true -> K = K0) ->
   forall K, reachable syms p K -> In K tbl.
-Proof. exact reachable_in_table. Qed.
+Proof. intros syms p tbl H. apply (reachable_in_table syms p tbl H). intros K K0 _. apply cfg_eqb_ok. Qed.
 Print Assumptions c09_reachable_in_table.
 
 (** examples over bytes a b:  /a+/; "ab"  is ambiguous at the second a;  /a+/; "b"  is not *)
